@@ -456,7 +456,7 @@ def run(pid, cfg, tier, seed, scr, only, a, t0):
     log("%s tier=%s: %d queries, %d hold, %d undecided, %d violated, %d known, %d unreproduced, %.0fs"
         % (pid, tier, len(queries), len(holds), len(undec), len(violations), len(known_hits), len(unreproduced), wall))
 
-    if not (only and not a.replay):
+    if not (only and not a.replay) and not os.environ.get("VERIF_NO_EVIDENCE"):
         write_evidence(pid, cfg, tier, seed, queries, holds, undec, violations, known_hits, unreproduced, wall, cmds,
                        injected, notes)
     if violations:
